@@ -16,9 +16,11 @@ def export(ctx):
 
 
 NUMF = {'none': {}, 'ge5': {'ge': 5}, 'gt5': {'gt': 5}, 'le5': {'le': 5}, 'lt5': {'lt': 5}, 'ge5le7': {'ge': 5, 'le': 7},
-        'ge5gt3': {'ge': 5, 'gt': 3}, 'le5lt7': {'le': 5, 'lt': 7}}
+        'ge5gt3': {'ge': 5, 'gt': 3}, 'le5lt7': {'le': 5, 'lt': 7},
+        'ge5gt5': {'ge': 5, 'gt': 5}, 'le5lt5': {'le': 5, 'lt': 5}}
 STRF = {'minlen2': {'min_len': 2}, 'maxlen3': {'max_len': 3}, 'len2to3': {'min_len': 2, 'max_len': 3},
-        'pattern': {'pattern': 'a+b'}, 'pattern_maxlen3': {'pattern': 'a+b', 'max_len': 3}}
+        'pattern': {'pattern': 'a+b'}, 'pattern_maxlen3': {'pattern': 'a+b', 'max_len': 3},
+        'pattern_derived': {'pattern': 'a+b', '__parent__': {'pattern': 'x+y', 'probe': 'xxy'}}}
 
 
 def type_of(c):
